@@ -483,9 +483,13 @@ func boolToBV(c *Term, w int) *Term {
 type model struct {
 	bv  map[string]uint64
 	str map[string]string // values of Str-sorted inputs: a literal of the program or a fresh string
+	tv  map[*Term]uint64  // values of auxiliary Bool/BV terms (applications of string functions)
+	ts  map[*Term]string  // values of auxiliary Str terms: a literal, or "\x00fresh:<abstract value>"
 }
 
-func newModel() *model { return &model{bv: map[string]uint64{}, str: map[string]string{}} }
+func newModel() *model {
+	return &model{bv: map[string]uint64{}, str: map[string]string{}, tv: map[*Term]uint64{}, ts: map[*Term]string{}}
+}
 
 // eval computes t under m. ok is false if t contains an uninterpreted
 // function or a Str-sorted subterm (those need the solver).
